@@ -998,7 +998,39 @@ func (fr *frame) mapUpdate(b *ssa.BasicBlock, in *ssa.MapUpdate, reach Term, h H
 		key := val + l.Path
 		h = x.hset(h, key, app("store", x.hget(h, key), m, app("store", app("select", x.hget(h, key), m), k, v.ts[i])))
 	}
+	if mapIsLocal(in.Map) {
+		return h // a map no other code can see: pure functions of the visible state are unaffected
+	}
 	return x.bumpEpoch(h)
+}
+
+// mapIsLocal: the map is made in this function and only ever used as the operand of map operations here.
+func mapIsLocal(v ssa.Value) bool {
+	mm, ok := v.(*ssa.MakeMap)
+	if !ok || mm.Referrers() == nil {
+		return false
+	}
+	for _, r := range *mm.Referrers() {
+		switch r := r.(type) {
+		case *ssa.DebugRef:
+		case *ssa.MapUpdate:
+			if r.Map != v || r.Key == v || r.Value == v {
+				return false
+			}
+		case *ssa.Lookup:
+			if r.X != v {
+				return false
+			}
+		case *ssa.Range:
+		case *ssa.Call:
+			if b, isB := r.Call.Value.(*ssa.Builtin); !isB || (b.Name() != "len" && b.Name() != "delete") {
+				return false
+			}
+		default:
+			return false
+		}
+	}
+	return true
 }
 
 func (x *Enc) mapLookup(h Heap, mt *types.Map, m Term, kv Val) (Val, Term) {
